@@ -460,6 +460,7 @@ func leanVal(v val) string {
 type sfield struct {
 	Struct, JSON, YAML, Kind string
 	Default                  val
+	Required                 bool // `validate` tag says required / gte=1
 }
 
 func kindOf(t reflect.Type) string {
@@ -523,7 +524,8 @@ func samplerFields() []sfield {
 					d = val{Tag: "s", S: dt}
 				}
 			}
-			out = append(out, sfield{name, j, y, k, d})
+			vt := f.Tag.Get("validate")
+			out = append(out, sfield{name, j, y, k, d, strings.Contains(vt, "required") || strings.Contains(vt, "gte=1")})
 		}
 	}
 	add("DeterministicSampler", config.DeterministicSamplerConfig{})
